@@ -322,6 +322,18 @@ class Fn:
             if r2[0] == "call":
                 # the inner value's own success payload: Some.0 / Ok.0 are implicit in the wrapper's success payload
                 return self.payload(r2[1], r2[2], tuple(p2) + tuple(p), depth + 1)
+            if r2[0] == "local" and nm == "branch" and not p2 and len(p) == 1 and str(p[0]).isdigit():
+                # ... and `Ok((a, b))`: the k-th component of the tuple built for the Ok
+                alts = self.ok_alternatives(r2[1])
+                proj_alts = []
+                for o_, blk_ in alts or []:
+                    d_ = self.g.single_def(o_["place"]["local"]) if _is_place_op(o_) and not o_["place"]["proj"] else None
+                    if d_ is None or d_[2]["k"] != "Aggregate" or d_[2].get("agg") != "Tuple" or int(p[0]) >= len(d_[2]["ops"]):
+                        proj_alts = None
+                        break
+                    proj_alts.append((d_[2]["ops"][int(p[0])], d_[0]))
+                if proj_alts:
+                    return ("alts", proj_alts)
             if r2[0] == "local" and nm == "branch" and not p2 and not p:
                 # LE-UNWRAP: `x?` on a Result BUILT IN THIS BODY (the body of a new helper spliced in, see lib/inline.py): the Continue payload is
                 # the operand of one of the `Ok(..)` aggregates that define it; error definitions never reach the Continue edge
